@@ -1,5 +1,6 @@
 import Tibc.Props.C03
 import Tibc.Expect.Packet
+import Tibc.Expect.Keys
 #print axioms Tibc.C03.ack_accepted_authentic
 #print axioms Tibc.C03.ack_writes_only_after_verification
 #print axioms Tibc.C03.ack_deletes_commitment
@@ -8,3 +9,5 @@ import Tibc.Expect.Packet
 #print axioms Tibc.C03.ack_accepted_was_written
 #print axioms Tibc.C03.step_ackInv
 #print axioms Tibc.C03.ack_processed_at_most_once
+#print axioms Tibc.C03.ack_key_injective
+#print axioms Tibc.C03.ack_key_family_disjoint
